@@ -179,3 +179,61 @@ impl Conv for VecKind {
         *i
     }
 }
+
+// ------------------------------------------------------------------ test signature for the Var interface (C19)
+/// edge labels of the test signature (object labels are arbitrary)
+pub const L_VAR: u64 = 200;
+pub const L_ADD: u64 = 201;
+pub const L_MUL: u64 = 202;
+pub const L_NEG: u64 = 203;
+pub const L_XOR: u64 = 204;
+pub const L_AND: u64 = 205;
+pub const L_SUB: u64 = 206;
+pub const L_NOT: u64 = 207;
+pub const L_OP3: u64 = 208;
+use open_hypergraphs::lax::var::*;
+impl HasVar for Lab {
+    fn var() -> Self {
+        Lab::c(L_VAR)
+    }
+}
+impl HasVar for NLab {
+    fn var() -> Self {
+        NLab(L_VAR)
+    }
+}
+macro_rules! sig_binop {
+    ($tr:ident, $f:ident, $k:expr) => {
+        impl $tr<Lab, Lab> for Lab {
+            fn $f(l: Lab, _r: Lab) -> (Lab, Lab) {
+                (l, Lab::c($k))
+            }
+        }
+        impl $tr<NLab, NLab> for NLab {
+            fn $f(l: NLab, _r: NLab) -> (NLab, NLab) {
+                (l, NLab($k))
+            }
+        }
+    };
+}
+macro_rules! sig_unop {
+    ($tr:ident, $f:ident, $k:expr) => {
+        impl $tr<Lab, Lab> for Lab {
+            fn $f(l: Lab) -> (Lab, Lab) {
+                (l, Lab::c($k))
+            }
+        }
+        impl $tr<NLab, NLab> for NLab {
+            fn $f(l: NLab) -> (NLab, NLab) {
+                (l, NLab($k))
+            }
+        }
+    };
+}
+sig_binop!(HasAdd, add, L_ADD);
+sig_binop!(HasMul, mul, L_MUL);
+sig_binop!(HasSub, sub, L_SUB);
+sig_binop!(HasBitXor, bitxor, L_XOR);
+sig_binop!(HasBitAnd, bitand, L_AND);
+sig_unop!(HasNeg, neg, L_NEG);
+sig_unop!(HasNot, not, L_NOT);
